@@ -391,23 +391,19 @@ class ASTTypeBuilder:
         element: Union[Argument, InputField],
         extended_type: Callable[[], GraphQLType],
     ) -> Any:
-        # The default value of an element written in SDL is the value of its
-        # literal in the type registered in the extended schema (an extension
-        # may e.g. add an input field with a default of its own): it is
-        # evaluated again, unless it has been changed in code since.
-        node = element.node
+        # The default value of an element is a value of the type registered in
+        # the extended schema: an extension may add input fields with defaults
+        # of their own, which an input object value written before must show
+        # (as the same literal written in a query would). The current value is
+        # completed rather than its SDL literal evaluated again: the value may
+        # have been changed in code, and the literal may spell names which a
+        # transform (e.g. camel casing) has renamed since.
         current = element._default_value
-        if (
-            not element.has_default_value
-            or node is None
-            or node.default_value is None
-        ):
+        if not element.has_default_value:
             return current
         try:
-            if value_from_ast(node.default_value, element.type) != current:
-                return current
-            return value_from_ast(node.default_value, extended_type())
-        except (InvalidValue, TypeError, SDLError):
+            return _completed_input_value(current, extended_type())
+        except SDLError:  # type being extended right now (cyclic definition)
             return current
 
     def _build_argument(self, node: _ast.InputValueDefinition) -> Argument:
@@ -643,6 +639,25 @@ class ASTTypeBuilder:
             node=argument.node,
             python_name=argument.python_name,
         )
+
+
+def _completed_input_value(value: Any, type_: GraphQLType) -> Any:
+    # `value` with the defaults of the input fields it does not mention.
+    if isinstance(type_, NonNullType):
+        return _completed_input_value(value, type_.type)
+    if isinstance(type_, ListType) and isinstance(value, list):
+        return [_completed_input_value(v, type_.type) for v in value]
+    if isinstance(type_, InputObjectType) and isinstance(value, dict):
+        completed = dict(value)
+        for field in type_.fields:
+            if field.python_name in completed:
+                completed[field.python_name] = _completed_input_value(
+                    completed[field.python_name], field.type
+                )
+            elif field.has_default_value:
+                completed[field.python_name] = field.default_value
+        return completed
+    return value
 
 
 def _deprecation_reason(
